@@ -226,3 +226,194 @@ func bfLexLess(h *ssa.Function) (bool, string) {
 	}
 	return true, ""
 }
+
+// c19AppendTerms decides AppendOne (E.8) by interpretation over symbolic hashes: for the 31 prior peak lists of
+// length 0..4 with every pattern of empty slots (held in a slice with spare capacity) and a new item, AppendOne
+// is followed with the MMR's hash function opaque (input logged, fresh symbol returned). Required: the calls are
+// exactly H(peak at height j ⌢ carried) for the occupied run of slots from height 0, in order; the result is the
+// prior list with that run emptied and the carried value in the first free slot (or appended above the top);
+// the result is installed as the MMR's peak list and returned; the prior list's storage is neither modified nor
+// shared by the result.
+func c19AppendTerms(c *Ctx, f *ssa.Function) {
+	const rule = "C19.append"
+	key := "(*mmr.MMR).AppendOne · result (symbolic hashes)"
+	type hb [32][8]bfBit
+	sym := func(id int) hb {
+		var h hb
+		for b := 0; b < 32; b++ {
+			for j := 0; j < 8; j++ {
+				h[b][j] = bfBit{k: 2, i: uint16(256*id + 8*b + j)}
+			}
+		}
+		return h
+	}
+	toInt := func(bits [8]bfBit) bfInt {
+		v := bfInt{w: 8}
+		copy(v.b[:8], bits[:])
+		return v
+	}
+	fromAny := func(v any) [8]bfBit {
+		var out [8]bfBit
+		if i, ok := v.(bfInt); ok {
+			copy(out[:], i.b[:8])
+		}
+		return out
+	}
+	newHash := func(m *bfMachine, heap bfHeap, h hb) bfPtr {
+		obj := m.newArray(heap, 32)
+		for b := 0; b < 32; b++ {
+			heap[obj][b] = toInt(h[b])
+		}
+		return bfPtr{obj: obj, field: -1}
+	}
+	readHash := func(heap bfHeap, p bfPtr) hb {
+		var h hb
+		for b := 0; b < 32; b++ {
+			h[b] = fromAny(bfElem(heap, p.obj, b))
+		}
+		return h
+	}
+	shapes, bad := 0, ""
+	for n := 0; n <= 4 && bad == ""; n++ {
+		for mask := 0; mask < 1<<n && bad == ""; mask++ {
+			shapes++
+			desc := fmt.Sprintf("%d slots, occupied %0*b", n, n, mask)
+			m := &bfMachine{maxSteps: 60000}
+			heap := bfHeap{}
+			arr := m.newArray(heap, n+2) // spare capacity: an in-place append would be visible
+			prior := make([]*hb, n)
+			for i := 0; i < n; i++ {
+				if mask>>i&1 == 1 {
+					h := sym(i)
+					prior[i] = &h
+					heap[arr][i] = newHash(m, heap, h)
+				}
+			}
+			before := map[int]any{}
+			for k, v := range heap[arr] {
+				before[k] = v
+			}
+			item := sym(10)
+			itemPtr := newHash(m, heap, item)
+			m.nextObj++
+			recv := bfPtr{obj: m.nextObj, field: -1}
+			heap[recv.obj] = map[int]any{0: bfSlice{obj: arr, lo: 0, hi: n, cp: n + 2}, 1: bfOpaqueFn{"hashFn"}}
+			var log [][][8]bfBit
+			var fresh []hb
+			m.hook = func(callee *ssa.Function, args []any, hp bfHeap) (any, bool) {
+				if callee != nil || len(args) != 1 {
+					return nil, false
+				}
+				sl, ok := args[0].(bfSlice)
+				if !ok {
+					return nil, false
+				}
+				var in [][8]bfBit
+				for i := sl.lo; i < sl.hi; i++ {
+					in = append(in, fromAny(bfElem(hp, sl.obj, i)))
+				}
+				log = append(log, in)
+				h := sym(16 + len(fresh))
+				fresh = append(fresh, h)
+				out := bfArr{n: 32, el: map[int]any{}}
+				for b := 0; b < 32; b++ {
+					out.el[b] = toInt(h[b])
+				}
+				return out, true
+			}
+			outs := m.call(f, []any{recv, itemPtr}, heap, 0)
+			if len(outs) != 1 || outs[0].fault != "" || len(outs[0].results) != 1 {
+				why := fmt.Sprintf("%d outcomes", len(outs))
+				for _, o := range outs {
+					if o.fault != "" {
+						why = o.fault
+					}
+				}
+				bad = desc + ": the function cannot be followed (" + why + ")"
+				break
+			}
+			oh := outs[0].heap
+			res, isSl := outs[0].results[0].(bfSlice)
+			if !isSl {
+				bad = desc + ": the result is not a peak list"
+				break
+			}
+			// expected (E.8)
+			want := make([]*hb, n)
+			copy(want, prior)
+			carried := item
+			var wantLog [][2]hb
+			j := 0
+			for ; j < n && want[j] != nil; j++ {
+				wantLog = append(wantLog, [2]hb{*want[j], carried})
+				want[j] = nil
+				carried = sym(16 + j)
+			}
+			if j < n {
+				cv := carried
+				want[j] = &cv
+			} else {
+				cv := carried
+				want = append(want, &cv)
+			}
+			if len(log) != len(wantLog) {
+				bad = fmt.Sprintf("%s: %d merges, E.8 performs %d", desc, len(log), len(wantLog))
+				break
+			}
+			for i, w := range wantLog {
+				var in [][8]bfBit
+				in = append(in, w[0][:]...)
+				in = append(in, w[1][:]...)
+				okIn := len(log[i]) == len(in)
+				for k := 0; okIn && k < len(in); k++ {
+					if log[i][k] != in[k] {
+						okIn = false
+					}
+				}
+				if !okIn {
+					bad = fmt.Sprintf("%s: merge %d does not hash (peak at height %d ⌢ carried value)", desc, i, i)
+					break
+				}
+			}
+			if bad != "" {
+				break
+			}
+			if res.hi-res.lo != len(want) {
+				bad = fmt.Sprintf("%s: the result has %d slots, E.8 gives %d", desc, res.hi-res.lo, len(want))
+				break
+			}
+			for i := range want {
+				p, isP := rawElem(oh, res.obj, res.lo+i).(bfPtr)
+				empty := !isP || p.obj == 0
+				switch {
+				case want[i] == nil && !empty:
+					bad = fmt.Sprintf("%s: slot %d of the result should be empty", desc, i)
+				case want[i] != nil && empty:
+					bad = fmt.Sprintf("%s: slot %d of the result is empty", desc, i)
+				case want[i] != nil && readHash(oh, p) != *want[i]:
+					bad = fmt.Sprintf("%s: slot %d of the result holds a different value than E.8 gives", desc, i)
+				}
+			}
+			if bad != "" {
+				break
+			}
+			if inst, ok := oh[recv.obj][0].(bfSlice); !ok || inst != res {
+				bad = desc + ": the result is not installed as the MMR's peak list"
+				break
+			}
+			if res.obj == arr {
+				bad = desc + ": the result shares the storage of the prior peak list"
+				break
+			}
+			for k, v := range before {
+				if oh[arr][k] != v {
+					bad = desc + ": the prior peak list was modified"
+				}
+			}
+			if len(oh[arr]) != len(before) {
+				bad = desc + ": the prior peak list's storage was written"
+			}
+		}
+	}
+	c.Check(bad == "", rule, key, f.Pos(), fmt.Sprintf("merges, resulting slots, installation and privacy equal E.8 for %d prior lists", shapes), bad)
+}
